@@ -9,6 +9,6 @@ CONSTANTS
   MCBodies = {"none", "none", "gb", "once", "ggb", "gonce"}
   MCEnv = {}
   MCStrict = {TRUE, FALSE}
-  GenDepth = 24
+  GenDepth = 20
 INVARIANT Emit
 CHECK_DEADLOCK FALSE
